@@ -8,7 +8,7 @@ from collections.abc import MutableMapping, MutableSequence, MutableSet
 from typing import Any, Callable, Iterable, Optional
 
 from spec_classes.errors import FrozenInstanceError
-from spec_classes.types import MISSING, Attr
+from spec_classes.types import MISSING, UNCHANGED, Attr
 from spec_classes.utils.method_builder import MethodBuilder
 from spec_classes.utils.mutation import (
     _restored_on_error,
@@ -83,8 +83,12 @@ class InitMethod(MethodDescriptor):
                             or attr == instance_metadata.init_overflow_attr
                         ):
                             continue
-                        if kwargs.get(attr, None) is MISSING:
-                            # (A key that was not passed.)
+                        if (
+                            kwargs.get(attr, None) is MISSING
+                            or kwargs.get(attr, None) is UNCHANGED
+                        ):
+                            # (A key that was not passed; or "leave as it is",
+                            # which for a new instance is the default.)
                             del kwargs[attr]
                         if attr in kwargs:
                             parent_kwargs[attr] = kwargs.pop(attr)
@@ -125,6 +129,9 @@ class InitMethod(MethodDescriptor):
             # but (as for dataclasses) still receive their own copy of the
             # default, so that instances never share the class-level object.
             value = kwargs.get(attr, MISSING) if attr_spec.init else MISSING
+            if value is UNCHANGED:
+                # "Leave as it is": for a new instance, that is the default.
+                value = MISSING
             if value is not MISSING:
                 # If owner is not spec-class, we have already looked up and
                 # handled copying.
